@@ -417,8 +417,10 @@ def check_zip_replace(case, R):
                     variant["parts"] = [list(range(len(T)))]
                 refs.append(run_variant(R, {"fmt": "nt", "how": "raw"}, T, cfg, t, tmp))
                 as_file = run_variant(R, {"fmt": "nt", "how": "file", "id": 50 + k}, T, cfg, t, tmp)
-                if difference(as_file, refs[-1], T, cfg, t) is not None:      # the reference is in doubt (reported as raw-vs-file)
-                    R.stats["zip_replace_without_reference"] += 1
+                as_graph = run_variant(R, {"fmt": "turtle", "how": "graph"}, T, cfg, t, tmp)
+                d_graph = difference(refs[-1], as_graph, T, cfg, t)
+                if difference(as_file, refs[-1], T, cfg, t) is not None or (d_graph is not None and d_graph[0] != "tie"):
+                    R.stats["zip_replace_without_reference"] += 1      # the reference is in doubt (reported by the main family)
                     return
                 outs.append(run_variant(R, variant, T, cfg, t, tmp))        # same directory, same file name: overwritten
         except U.Skipped as exc:
